@@ -4,7 +4,8 @@
 
 #include "c14_elem.h"
 
-#include <tuple> // FlatMap.h uses std::forward_as_tuple without including it
+#include <cassert> // PODResizeableArray.h uses assert without including it
+#include <tuple>   // FlatMap.h uses std::forward_as_tuple without including it
 
 #include "galois/FlatMap.h"
 #include "galois/LazyArray.h"
